@@ -25,6 +25,7 @@ def _body(ex, n, prefix=""):
     functions=["btclib.descriptors.descriptors.checksum", "btclib.descriptors.descriptors.add_checksum", "btclib.descriptors.descriptors.strip_checksum"],
     timeout=900, weight=3, min_ok=1, query_timeout_ms=180000)
 def checksum_ref(ex, n):
+    ex.merge_conditionals()
     s, codes = _body(ex, n, prefix="pk(")
     if not ex.concrete:
         ex.assume(sand(*[c != ord("#") for c in codes]))
@@ -46,6 +47,7 @@ def checksum_ref(ex, n):
     functions=["btclib.descriptors.descriptors.strip_checksum"], timeout=900, weight=3, min_ok=0, query_timeout_ms=180000,
     outside=["single-character error detection for bodies longer than 3 characters after 'pk(' (XOR-network unsatisfiability: z3 answers unknown at 180 s from 5 symbolic characters on)"])
 def corrupted(ex, n):
+    ex.merge_conditionals()
     s, codes = _body(ex, n, prefix="pk(")
     if not ex.concrete:
         ex.assume(sand(*[c != ord("#") for c in codes]))
